@@ -22,7 +22,7 @@ pub struct SynthSpec {
     pub bad_prep: bool,
 }
 
-pub const N_GLYPHS: u16 = 7;
+pub const N_GLYPHS: u16 = 9;
 
 fn pushb(v: &[u8]) -> Vec<u8> {
     assert!(!v.is_empty() && v.len() <= 8);
@@ -48,6 +48,7 @@ const SZP2: u8 = 0x15;
 const GC0: u8 = 0x46;
 const SCFS: u8 = 0x48;
 const SVTCA_X: u8 = 0x01;
+const MDAP_RND: u8 = 0x2F;
 const UNASSIGNED_OP: u8 = 0x8F;
 
 pub fn probe_program(glyph: u16) -> Vec<u8> {
@@ -64,6 +65,10 @@ pub fn probe_program(glyph: u16) -> Vec<u8> {
         5 => cat(&[vec![SVTCA_X], pushb(&[2]), pushb(&[0]), vec![SZP2], pushb(&[1]), vec![GC0], pushb(&[1]), vec![SZP2, SHPIX]]),
         // glyph-time write then read of storage and cvt: must not leak into later draws
         6 => cat(&[pushb(&[3, 64]), vec![WS], pushb(&[1, 64]), vec![WCVTP], pushb(&[2]), pushb(&[3]), vec![RS, SHPIX]]),
+        // pop from a stack nothing was ever pushed to and act on the values: outside pedantic mode an underflow
+        // yields 0, whatever the memory the stack was carved from holds (move point 0 by 0 / round point 0)
+        7 => vec![SHPIX],
+        8 => vec![SVTCA_X, MDAP_RND],
         _ => vec![],
     }
 }
